@@ -37,8 +37,8 @@ func (ps *ProfService) ProfileTypes(ctx context.Context, start time.Time, end ti
 		From(sql.NewRawObject(table)).
 		Join(sql.NewJoin("array", sql.NewSimpleCol("sample_types_units", "sample_type_unit"), nil)).
 		AndWhere(
-			sql.Ge(sql.NewRawObject("date"), sql.NewStringVal(start.Format("2006-01-02"))),
-			sql.Le(sql.NewRawObject("date"), sql.NewStringVal(end.Format("2006-01-02"))))
+			sql.Ge(sql.NewRawObject("date"), sql.NewStringVal(start.UTC().Format("2006-01-02"))),
+			sql.Le(sql.NewRawObject("date"), sql.NewStringVal(end.UTC().Format("2006-01-02"))))
 	strQ, err := query.String(sql.DefaultCtx())
 	if err != nil {
 		return nil, err
